@@ -1,4 +1,5 @@
 import Arp.Lemmas.Defs
+import Arp.Lemmas.AddSub
 /-!
 # Helper lemmas for multiplication and division (C01 / C03)
 -/
@@ -33,15 +34,6 @@ theorem msb_shiftRight {m : Nat} (k : Nat) (hk : k < msb m) : msb (m >>> k) = ms
   · rw [Nat.div_lt_iff_lt_mul (by positivity), ← Nat.pow_add]
     rwa [show msb m - k - 1 + 1 + k = msb m by omega]
 
-theorem msb_le_of_lt {m p : Nat} (h : m < 2 ^ p) : msb m ≤ p := by
-  by_cases hm : m = 0
-  · subst hm; simp [msb]
-  · by_contra hc
-    have h1 := msb_le hm
-    have : 2 ^ p ≤ 2 ^ (msb m - 1) := Nat.pow_le_pow_right (by norm_num) (by omega)
-    omega
-
-/-! ### multiplication of two normal values -/
 
 theorem mulNormals_correct (a b : Flt) (rm : RM) (sg : Bool) (hF : a.sem.WF) (hs : b.sem = a.sem)
     (hma : a.mant ≠ 0) (hmb : b.mant ≠ 0) :
